@@ -1,6 +1,18 @@
 (* Model of pycaption.detect_format and the six Reader.detect methods (C20).
    Mirrors pycaption/__init__.py, srt.py, webvtt.py, microdvd.py, sami.py, dfxp/base.py,
-   scc/__init__.py at the repaired tree (SRT sniffer guards the second line). *)
+   scc/__init__.py at the repaired tree (SRT sniffer guards the second line).
+   Constants come from model/Generated.v, regenerated from the working tree on every run:
+     supported_readers (SUPPORTED_READERS), scc_header (scc.constants.HEADER),
+     dfxp_marker / vtt_marker / sami_marker / srt_arrow (the string literal of each sniffer's code object),
+     mdvd_pattern (the regex literal; the matcher below is hand-written for exactly the pattern {\d+}{\d+},
+                   props/C20.v re-checks that the generated literal is that pattern),
+     isdigit_ranges (str.isdigit), re_digit_ranges (re \d on str), lower_ascii_map (str.lower) of the running Python.
+   Unicode: str.isdigit and \d are modelled on ALL code points by the generated range tables.  str.lower is modelled
+   as far as the sniffers can see it: they only ask whether an ASCII marker occurs in content.lower(); a code point
+   whose lower() contains an ASCII character is mapped exactly (A-Z, U+0130 -> "i" U+0307, U+212A -> "k"), every
+   other code point stands for itself (its real lower() is a non-empty string without ASCII characters, so it
+   separates the ASCII stretches exactly as it does here; the final-sigma rule only chooses between two non-ASCII
+   letters).  design/C20.md, decision 5. *)
 From Coq Require Import List ZArith Bool.
 From PV Require Import lib.Sx lib.Str lib.Result model.Generated.
 Import ListNotations.
@@ -9,14 +21,35 @@ Open Scope Z_scope.
 Definition R_DFXP := 0. Definition R_MDVD := 1. Definition R_VTT := 2.
 Definition R_SAMI := 3. Definition R_SRT := 4. Definition R_SCC := 5.
 
+(* ---- the interpreter's Unicode predicates, from generated tables ------------------------- *)
+Definition in_ranges (c : Z) (rs : list (Z * Z)) : bool :=
+  existsb (fun r => (fst r <=? c) && (c <=? snd r)) rs.
+
+Definition u_isdigit_ch (c : Z) : bool := in_ranges c isdigit_ranges.
+(* str.isdigit(): non-empty and every character is a digit *)
+Definition u_isdigit (s : str) : bool :=
+  match s with [] => false | _ => forallb u_isdigit_ch s end.
+(* re \d on a str pattern *)
+Definition re_digit (c : Z) : bool := in_ranges c re_digit_ranges.
+
+Fixpoint assoc (c : Z) (m : list (Z * list Z)) : option (list Z) :=
+  match m with
+  | [] => None
+  | (k, v) :: t => if k =? c then Some v else assoc c t
+  end.
+Definition u_lower_ch (c : Z) : str :=
+  match assoc c lower_ascii_map with Some l => l | None => [c] end.
+Definition u_lower (s : str) : str := flat_map u_lower_ch s.
+
+(* ---- the six sniffers ---------------------------------------------------------------------- *)
 (* '</tt>' in content.lower() *)
-Definition detect_dfxp (s : str) : result bool := Ok (is_infix (lit "</tt>") (lower s)).
+Definition detect_dfxp (s : str) : result bool := Ok (is_infix dfxp_marker (u_lower s)).
 
 (* re.match(r"{\d+}{\d+}", content): prefix match *)
 Definition brace_digits (s : str) : option str :=
   match s with
   | 123 :: t =>
-      match take_while is_digit t, drop_while is_digit t with
+      match take_while re_digit t, drop_while re_digit t with
       | _ :: _, 125 :: rest => Some rest
       | _, _ => None
       end
@@ -28,35 +61,25 @@ Definition detect_mdvd (s : str) : result bool :=
       | None => false
       end).
 
-Definition detect_vtt (s : str) : result bool := Ok (is_infix (lit "WEBVTT") s).
-Definition detect_sami (s : str) : result bool := Ok (is_infix (lit "<sami") (lower s)).
+(* "WEBVTT" in content *)
+Definition detect_vtt (s : str) : result bool := Ok (is_infix vtt_marker s).
+(* '<sami' in content.lower() *)
+Definition detect_sami (s : str) : result bool := Ok (is_infix sami_marker (u_lower s)).
 
 (* lines = content.splitlines(); lines[0].isdigit() and len(lines) > 1 and '-->' in lines[1] *)
 Definition detect_srt (s : str) : result bool :=
   match splitlines s with
   | [] => Err IndexError
   | l0 :: rest =>
-      if isdigit l0 then
+      if u_isdigit l0 then
         match rest with
         | [] => Ok false
-        | l1 :: _ => Ok (is_infix (lit "-->") l1)
+        | l1 :: _ => Ok (is_infix srt_arrow l1)
         end
       else Ok false
   end.
 
-(* the pinned (pre-fix) SRT sniffer: lines[1] without a guard *)
-Definition detect_srt_prefix (s : str) : result bool :=
-  match splitlines s with
-  | [] => Err IndexError
-  | l0 :: rest =>
-      if isdigit l0 then
-        match rest with
-        | [] => Err IndexError
-        | l1 :: _ => Ok (is_infix (lit "-->") l1)
-        end
-      else Ok false
-  end.
-
+(* lines = content.splitlines(); lines[0] == HEADER *)
 Definition detect_scc (s : str) : result bool :=
   match splitlines s with
   | [] => Err IndexError
@@ -70,14 +93,30 @@ Definition detect_of (r : Z) (s : str) : result bool :=
   | _ => Err AttributeError
   end.
 
+(* for reader in SUPPORTED_READERS: if reader().detect(caps): return reader *)
 Fixpoint first_match (rs : list Z) (s : str) : result (option Z) :=
   match rs with
   | [] => Ok None
   | r :: t => do b <- detect_of r s; if b then Ok (Some r) else first_match t s
   end.
 
+(* if not len(caps): raise CaptionReadNoCaptions *)
 Definition detect_format (s : str) : result (option Z) :=
   match s with
   | [] => Err ENoCaptions
   | _ => first_match supported_readers s
+  end.
+
+(* HISTORY ONLY - mirrors nothing in the current tree: the SRT sniffer as pinned before fix e1d5b58
+   (lines[1] read without a guard); kept for the recorded refutation C20_srt_detect_index_refuted. *)
+Definition detect_srt_prefix (s : str) : result bool :=
+  match splitlines s with
+  | [] => Err IndexError
+  | l0 :: rest =>
+      if u_isdigit l0 then
+        match rest with
+        | [] => Err IndexError
+        | l1 :: _ => Ok (is_infix srt_arrow l1)
+        end
+      else Ok false
   end.
